@@ -21,6 +21,13 @@ func (x *Exec) heapGenOf(st *State, name string) string {
 			}
 		}
 	}
+	if best == "" {
+		// "$havoc:*": every array, by a callee that allocates (zz_alloc.go); a later whole-heap havoc
+		// removes the record
+		if g, ok := st.ghost["$havoc:*"].(string); ok {
+			gen = g
+		}
+	}
 	return gen
 }
 
@@ -37,6 +44,13 @@ func (x *Exec) loopBaseGen(st *State, name string) (string, bool) {
 					best = pfx
 					root = g
 				}
+			}
+		}
+	}
+	if root == "" {
+		if g, ok := st.ghost["$havocBase:*"].(string); ok {
+			if _, all := st.ghost["$havoc:*"].(string); all {
+				root = g
 			}
 		}
 	}
